@@ -15,8 +15,16 @@ ALPHA11 = bytes([0x00, 0x01, 0x02, 0x3F, 0x40, 0x41, 0xC0, 0xC1, 0x0C, 0x0D, 0xF
 ALPHA8 = bytes([0x00, 0x01, 0x3F, 0x40, 0x41, 0xC0, 0x0C, 0xFF])
 ALPHA5 = bytes([0x00, 0x01, 0x41, 0xC0, 0x0C])
 
-# call budget: A + B * len(datagram) profile events of type call/c_call (measured maxima are reported)
-BUDGET_A, BUDGET_B = 400, 15
+# call budget (profile events of type call/c_call; measured maxima are reported): A + B * len(datagram) for everything that
+# is read once, plus C for every entry the datagram has room for - one name may cost up to 128 labels and 128 pointer hops
+# by design (names that decode are remembered, names that fail are not), which is a fixed amount per entry.  A decoder whose
+# work per name grows with the datagram (a label run of thousands re-read by every record) exceeds it.
+BUDGET_A, BUDGET_B, BUDGET_C = 400, 15, 600
+
+
+def budget_for(data: bytes) -> int:
+    declared = sum(struct.unpack(">HHHH", data[4:12])) if len(data) >= 12 else 0
+    return BUDGET_A + BUDGET_B * len(data) + BUDGET_C * min(declared, len(data) // 5)
 
 
 def header(flags: int, qd: int, an: int, ns: int, ar: int, id_: int = 0) -> bytes:
@@ -174,7 +182,24 @@ def pointer_ladder(n: int) -> bytes:
     return header(0x8400, 0, n, 0, 0) + bytes(out)
 
 
+def failing_target(nrec: int, kind: str, n: int) -> bytes:
+    """nrec PTR records whose rdata is a bare pointer to one shared name that does NOT decode: a run of n one-byte labels
+    ending in a reserved length octet ('labels'), or a run of n pointers each to the next, ending the same way ('hops').
+    Names that fail are not remembered by the decoder, so every record reads the shared part again."""
+    reclen = 3 + 10 + 2
+    target = 12 + nrec * reclen
+    recs = (b"\x01a\x00" + struct.pack(">HHLH", 12, 1, 120, 2) + struct.pack(">H", 0xC000 | target)) * nrec
+    if kind == "labels":
+        tail = b"\x01x" * n + b"\x80"
+    else:
+        tail = b"".join(struct.pack(">H", 0xC000 | (target + 2 * (h + 1))) for h in range(n)) + b"\x80"
+    return header(0x8400, 0, nrec, 0, 0) + recs + tail
+
+
 def families(tier: str) -> Iterator[bytes]:
+    for nrec, kind, n in ((100, "labels", 100), (300, "labels", 130), (300, "labels", 1000), (344, "labels", 1890),
+                          (500, "labels", 700), (560, "labels", 250), (560, "hops", 126), (560, "hops", 130), (400, "hops", 1400)):
+        yield failing_target(nrec, kind, n)
     depths = list(range(1, 140)) + [200, 500, 900, 980, 990, 1000, 1010, 1100, 2000, 3000, 4000, 4470]
     if tier != "quick":
         depths = list(range(1, 4471, 3)) + [4470]
@@ -343,7 +368,7 @@ def check_datagram(data: bytes, count_calls: bool = True) -> Tuple[Optional[str]
         if isinstance(e, (KeyboardInterrupt, SystemExit)):
             raise
         return f"{type(e).__name__} escaped the decoder: {str(e)[:200]}", "exception", counter.n
-    budget = BUDGET_A + BUDGET_B * len(data)
+    budget = budget_for(data)
     if count_calls and counter.n > budget:
         return f"{counter.n} calls for a {len(data)}-byte datagram (budget {budget})", "over-budget", counter.n
     if msg.valid:
